@@ -106,6 +106,7 @@ package operations
 //@   at call SignHeader#1 assert [pax-format] arg_hdr.Format == 4
 //@   property C03
 //@   at call AddSuffix#1 assert [suffix-added-with-size-record] has(hdr.PAXRecords, "STFS.UncompressedSize")
+//@   at call AddSuffix#1 assert [size-record-is-the-content-length] hdr.PAXRecords["STFS.UncompressedSize"] == itoaF(fiSize(file.Info))
 //@   at call Encrypt assert [content-encrypted-for-recipient] arg_encryptionFormat == o.pipes.Encryption && arg_recipient == o.crypto.Recipient
 //@   at call Compress assert [compresses-into-encryptor] arg_dst == encryptor && arg_compressionFormat == o.pipes.Compression
 //@   at call Compress assert [measured-and-written-with-the-same-level] arg_compressionLevel == compressionLevel && arg_isRegular == writer.DriveIsRegular && arg_recordSize == o.pipes.RecordSize
@@ -139,6 +140,7 @@ package operations
 //@   at call SignHeader#2 assert [pax-format-meta] arg_hdr.Format == 4
 //@   property C03
 //@   at call AddSuffix#1 assert [suffix-added-with-size-record] has(hdr.PAXRecords, "STFS.UncompressedSize")
+//@   at call AddSuffix#1 assert [size-record-is-the-content-length] hdr.PAXRecords["STFS.UncompressedSize"] == itoaF(fiSize(file.Info))
 //@   at call Encrypt assert [content-encrypted-for-recipient] arg_encryptionFormat == o.pipes.Encryption && arg_recipient == o.crypto.Recipient
 //@   at call Compress assert [compresses-into-encryptor] arg_dst == encryptor && arg_compressionFormat == o.pipes.Compression
 //@   at call Compress assert [measured-and-written-with-the-same-level] arg_compressionLevel == compressionLevel && arg_isRegular == writer.DriveIsRegular && arg_recordSize == o.pipes.RecordSize
